@@ -122,6 +122,7 @@ type Inst struct {
 	Sym      map[string]string
 	Backends map[string]*envx.Backend
 	Users    map[string]string // ntlm / local users (name -> password)
+	Started         time.Time // when the gateway of this instance was up
 	lastMintBrowser *Browser
 	groups          map[string]*loginGroup
 	groupMu         sync.Mutex
@@ -476,6 +477,7 @@ func (r *Runner) NewInst(cfg ScriptCfg) (*Inst, error) {
 		return nil, err
 	}
 	in.P = p
+	in.Started = time.Now()
 	ok = true
 	return in, nil
 }
